@@ -18,6 +18,9 @@ for w1, w2, tier in ((7, 32, 'quick'), (1, 9, 'quick'), (8, 8, 'thorough'), (31,
     OBLIGATIONS.append(Ob('C17.bits_rt_%d_%d' % (w1, w2), B, 'h_bits_rt', tier=tier, unwind=34, defines={'W1': w1, 'W2': w2}, max_alloc=32,
         bound='2 bit fields of widths %d and %d with any values, with and without stored size, stream version 2.2, leading byte and trailing uint32' % (w1, w2),
         covers='EncoderBuffer::StartBitEncoding/EncodeLeastSignificantBits32/EndBitEncoding, BitEncoder::PutBits, DecoderBuffer::StartBitDecoding/DecodeLeastSignificantBits32/EndBitDecoding, BitDecoder::GetBits'))
+OBLIGATIONS.append(Ob('C17.bits_two_seq', B, 'h_bits_two_seq', tier='quick', unwind=34, defines={'W1': 5, 'W2': 9}, max_alloc=48,
+    bound='two bit regions (5 and 9 bits) on the same EncoderBuffer, both size flags symbolic, optional Clear() in between, 8-byte header, bytes between and after',
+    covers='EncoderBuffer::StartBitEncoding/EndBitEncoding/Clear state across regions (encode_bit_sequence_size_, bit_encoder_reserved_bytes_), DecoderBuffer bit decoding'))
 OBLIGATIONS.append(Ob('C17.bits_past', B, 'h_bits_past', tier='quick', unwind=34, ub=True, flavour='nospec',
     bound='4 symbolic bytes, symbolic length <= 4; 64+ bits read', covers='DecoderBuffer::BitDecoder::GetBit past the end'))
 OBLIGATIONS.append(Ob('C17.direct_rt_2', B, 'h_direct_rt', tier='quick', unwind=18, defines={'NF': 2}, max_alloc=24,
